@@ -17,6 +17,18 @@
 
 use std::path::{Path, PathBuf};
 
+/// Harness error: the framework's panic hook records messages instead of
+/// printing them, so print first (the driver shows the shard's stderr tail
+/// with its INCONCLUSIVE line), then panic.
+macro_rules! die {
+    ($($arg:tt)*) => {{
+        let msg = format!($($arg)*);
+        eprintln!("{msg}");
+        panic!("{msg}")
+    }};
+}
+pub(crate) use die;
+
 /// Algorithm order of the digest columns; also the canonical spellings.
 pub const NAMES: [&str; 6] = ["BLAKE2s", "MD5", "RMD160", "SHA1", "SHA256", "SHA512"];
 /// Length of the hex digest per algorithm.
@@ -38,13 +50,13 @@ pub struct Vector {
 fn unhex(s: &str, what: &str) -> Vec<u8> {
     let b = s.as_bytes();
     if b.len() % 2 != 0 {
-        panic!("harness: odd hex length in {what}");
+        die!("harness: odd hex length in {what}");
     }
     let nib = |c: u8| -> u8 {
         match c {
             b'0'..=b'9' => c - b'0',
             b'a'..=b'f' => c - b'a' + 10,
-            _ => panic!("harness: bad hex digit in {what}"),
+            _ => die!("harness: bad hex digit in {what}"),
         }
     };
     let mut out = Vec::with_capacity(b.len() / 2);
@@ -56,7 +68,7 @@ fn unhex(s: &str, what: &str) -> Vec<u8> {
 
 pub fn vectors_path(tier: &str) -> PathBuf {
     let aux = std::env::var_os("PVH_AUX").unwrap_or_else(|| {
-        panic!(
+        die!(
             "harness: PVH_AUX is not set; C13 needs the hashlib vectors written by the plan's \
              pre-stage hook (oracle/digest_vectors.py <seed> {tier} $PVH_AUX/vectors-{tier}.txt)"
         )
@@ -69,7 +81,7 @@ pub fn vectors_path(tier: &str) -> PathBuf {
 pub fn load(seed: u64, tier: &str, mine: &dyn Fn(u64) -> bool) -> Vec<Vector> {
     let path = vectors_path(tier);
     let text = std::fs::read_to_string(&path).unwrap_or_else(|e| {
-        panic!(
+        die!(
             "harness: cannot read the hashlib vectors {path:?}: {e} (run \
              oracle/digest_vectors.py {seed} {tier} {path:?} or use ./check, whose pre-stage hook does)"
         )
@@ -78,7 +90,7 @@ pub fn load(seed: u64, tier: &str, mine: &dyn Fn(u64) -> bool) -> Vec<Vector> {
     let head = lines.next().unwrap_or("");
     let want = format!("# pvh-digest-vectors v1 seed={seed} tier={tier} inputs=");
     let Some(n) = head.strip_prefix(want.as_str()).and_then(|s| s.parse::<usize>().ok()) else {
-        panic!(
+        die!(
             "harness: {path:?} is not the vectors file of seed {seed} tier {tier}: header {head:?} \
              (regenerate: oracle/digest_vectors.py {seed} {tier} {path:?})"
         );
@@ -88,7 +100,7 @@ pub fn load(seed: u64, tier: &str, mine: &dyn Fn(u64) -> bool) -> Vec<Vector> {
     for line in lines {
         if let Some(rest) = line.strip_prefix("# end ") {
             if rest.parse::<usize>().ok() != Some(n) {
-                panic!("harness: {path:?}: bad trailer {line:?}");
+                die!("harness: {path:?}: bad trailer {line:?}");
             }
             ended = true;
             continue;
@@ -98,17 +110,17 @@ pub fn load(seed: u64, tier: &str, mine: &dyn Fn(u64) -> bool) -> Vec<Vector> {
         }
         let f: Vec<&str> = line.split(' ').collect();
         if f.len() != 17 || f[0] != "V" {
-            panic!("harness: {path:?}: malformed line starting {:?}", &line[..line.len().min(40)]);
+            die!("harness: {path:?}: malformed line starting {:?}", &line[..line.len().min(40)]);
         }
         let index: u64 =
-            f[1].parse().unwrap_or_else(|_| panic!("harness: {path:?}: bad index {:?}", f[1]));
+            f[1].parse().unwrap_or_else(|_| die!("harness: {path:?}: bad index {:?}", f[1]));
         if index != out.len() as u64 {
-            panic!("harness: {path:?}: index {index} out of sequence");
+            die!("harness: {path:?}: index {index} out of sequence");
         }
         let utf8 = match f[3] {
             "0" => false,
             "1" => true,
-            x => panic!("harness: {path:?}: bad utf8 flag {x:?}"),
+            x => die!("harness: {path:?}: bad utf8 flag {x:?}"),
         };
         let hex = if f[4] == "-" { "" } else { f[4] };
         let data = if mine(index) { Some(unhex(hex, "input bytes")) } else { None };
@@ -117,7 +129,7 @@ pub fn load(seed: u64, tier: &str, mine: &dyn Fn(u64) -> bool) -> Vec<Vector> {
             if s.len() != HEXLEN[k % 6]
                 || !s.bytes().all(|c| c.is_ascii_digit() || (b'a'..=b'f').contains(&c))
             {
-                panic!("harness: {path:?}: entry {index}: digest column {k} is not lower-case hex of the right length");
+                die!("harness: {path:?}: entry {index}: digest column {k} is not lower-case hex of the right length");
             }
             s.to_string()
         };
@@ -132,7 +144,7 @@ pub fn load(seed: u64, tier: &str, mine: &dyn Fn(u64) -> bool) -> Vec<Vector> {
         });
     }
     if !ended || out.len() != n {
-        panic!("harness: {path:?} is truncated: {} of {n} entries, trailer seen: {ended}", out.len());
+        die!("harness: {path:?} is truncated: {} of {n} entries, trailer seen: {ended}", out.len());
     }
     out
 }
